@@ -84,6 +84,22 @@ class SceneGraph:
         # convert various kwargs to a single matrix
         attr["matrix"] = kwargs_to_matrix(**kwargs)
 
+        forest = self.transforms
+        if frame_from != frame_to and forest.parents.get(frame_from) == frame_to:
+            # the edge exists the other way round and a frame has exactly
+            # one parent: store the inverse on the existing edge
+            keep = {
+                k: v
+                for k, v in forest.edge_data[(frame_to, frame_from)].items()
+                if k in ("geometry", "metadata")
+            }
+            forest.add_edge(
+                frame_to, frame_from, matrix=np.linalg.inv(attr["matrix"]), **keep
+            )
+            if "geometry" in kwargs:
+                forest.node_data[frame_to]["geometry"] = kwargs["geometry"]
+            return
+
         # add the edges for the transforms
         # wi ll return if it changed anything
         self.transforms.add_edge(frame_from, frame_to, **attr)
@@ -572,6 +588,18 @@ class EnforcedForest:
         changed : bool
           Return if this operation changed anything.
         """
+        # `v` may not be an ancestor of `u`, and a frame which has a
+        # parent may not become its own parent: both would close a cycle
+        node = u
+        for _ in range(len(self.parents) + 1):
+            parent = self.parents.get(node, node)
+            if parent == node:
+                # reached a root (a root may carry a self edge)
+                break
+            if parent == v or u == v:
+                raise ValueError(f"edge {u}->{v} would create a cycle!")
+            node = parent
+
         self._hash = None
 
         # a node has exactly one parent: when `v` moves to a new
